@@ -987,6 +987,20 @@ class Gen:
             self.emit('{ ' + prelude, 'spec', specfile, specline, False)
             for u in uses:
                 self.emit(self.clean(u), 'code', rel, it.line, False)
+        # R4: a labelled `continue 'L` inside the sliced body ends the body function with the value the directive assigns to that
+        # label (`labels=L1:EXPR1,L2:EXPR2`): the caller-side meaning of each label is part of the summary that replaces the loop
+        labels = dict(x.split(':', 1) for x in kw['labels'].replace('~', ' ').split(',')) if 'labels' in kw else {}
+        inner_all = find_loops(src, bopen, src.match[bopen])
+        stubbed = [(inner_all[n][0], src.match[inner_all[n][3]]) for (n, needle, _t) in proofs if needle == '@loopstub' and n < len(inner_all)]
+        for k in range(bopen + 1, src.match[bopen]):
+            if any(a <= k <= b for a, b in stubbed):
+                continue   # inside a loop that is replaced by its summary
+            if src.is_id(k, 'continue') and src.toks[k + 1].kind == 'lifetime':
+                lab = src.toks[k + 1].text.lstrip("'")
+                if lab not in labels:
+                    raise LostAnchor('loopbody: `continue \'%s` has no value in labels=' % lab)
+                proofs = list(proofs) + [(0, '@span', (src.toks[k].start, src.toks[k + 1].end, 'return ' + labels[lab]))]
+                self.drops.add("R4: `continue '%s` of a sliced loop body becomes `return %s`" % (lab, labels[lab]))
         # R4: a `continue` of THIS loop (not of a nested loop / closure) ends the body function: `return [suffix]`
         inner = [(l[0], src.match[l[3]]) for l in find_loops(src, bopen + 1, src.match[bopen])]
         for k in range(bopen + 1, src.match[bopen]):
